@@ -215,6 +215,25 @@ func C18(r *core.Run) {
 		}
 		emit(o)
 	})
+	// ---- the same bytes as file argument and on standard input (every shape of the end of the input) ----
+	outs4, d4 := core.Parallel(r, "stdin", in{dir}, 1, func(in in, shard, n int, emit func(out)) {
+		var o out
+		sb := filepath.Join(in.Dir, "stdin")
+		bodies := []string{"foo\nbar", "single", "foo\nbar\n", "foo\r\nbar", "foo\r\nbar\r\n", "", "\n", "foo\n\n\n", "foo\n##!$ s", "foo\n##!> include inc", "##!> assemble\nfoo\n##!<", "##!> assemble\nfoo\n##!<\n",
+			"foo\n##!<", "##!+ i\nfoo\n##!^ p", "foo\n  ", "foo\n\t", "foo\n##! c", "a|b\n(c", "foo\x00bar", "foo\nb\xc3\xa9"}
+		for _, body := range bodies {
+			os.RemoveAll(sb)
+			core.Tree{"regex-assembly/toolchain.yaml": c01Yaml, "regex-assembly/include/inc.ra": "plaininclude\n", "regex-assembly/123456.ra": body, "rules/": ""}.Materialise(sb)
+			file := core.RunCLI(r.Crs, sb, "", nil, "-d", sb, "regex", "generate", "123456")
+			std := core.RunCLI(r.Crs, sb, body, nil, "-d", sb, "regex", "generate", "-")
+			o.Runs += 2
+			o.Accepted++
+			if file.Exit != std.Exit || file.Stdout != std.Stdout {
+				o.Bad = append(o.Bad, c18Res{"stdin", "generate", "-", fmt.Sprintf("%q", body), "stdin-equals-file", fmt.Sprintf("file argument: exit %d %q; the same bytes on standard input: exit %d %q", file.Exit, file.Stdout, std.Exit, std.Stdout), std.Exit, std.Stdout, nil})
+			}
+		}
+		emit(o)
+	})
 	// ---- root resolution ----
 	rootTree := func() core.Tree {
 		t := core.Tree{
@@ -345,6 +364,7 @@ func C18(r *core.Run) {
 		emit(o)
 	})
 	deaths = append(deaths, d3...)
+	deaths = append(deaths, d4...)
 	if r.IsWorker() {
 		return
 	}
@@ -352,7 +372,7 @@ func C18(r *core.Run) {
 		r.HarnessError("worker %s/%d %s on %q: %s", d.Stage, d.Shard, d.Kind, d.Case, tailStr(d.Log, 300))
 	}
 	var tot out
-	for _, o := range append(append(outs, outs2...), outs3...) {
+	for _, o := range append(append(append(outs, outs2...), outs3...), outs4...) {
 		tot.Runs += o.Runs
 		tot.Accepted += o.Accepted
 		tot.Rejected += o.Rejected
